@@ -41,6 +41,34 @@ Proof.
   - intros H j p o Hg. rewrite Forall_forall in H. apply H. eapply get_op_In; eauto.
 Qed.
 
+Lemma single_machine_b_spec I : single_machine_b I = true <-> single_machine I.
+Proof.
+  rewrite single_machine_Forall. unfold single_machine_b. rewrite forallb_forall, Forall_forall.
+  split; intros H job Hj; specialize (H job Hj).
+  - rewrite forallb_forall in H. apply Forall_forall. intros o Ho. specialize (H o Ho).
+    apply Nat.eqb_eq in H. destruct (machines o) as [|m [|m2 t]]; try discriminate. eauto.
+  - rewrite Forall_forall in H. apply forallb_forall. intros o Ho. destruct (H o Ho) as [m ->]. reflexivity.
+Qed.
+
+Lemma has_machines_b_spec I : has_machines_b I = true <-> has_machines I.
+Proof.
+  rewrite has_machines_Forall. unfold has_machines_b. rewrite forallb_forall, Forall_forall. split.
+  - intros H o Ho. apply in_concat in Ho. destruct Ho as (job & Hj & Ho). specialize (H job Hj).
+    rewrite forallb_forall in H. specialize (H o Ho). destruct (machines o); [discriminate|congruence].
+  - intros H job Hj. apply forallb_forall. intros o Ho.
+    assert (Hin : In o (concat I)) by (apply in_concat; eauto). specialize (H o Hin).
+    destruct (machines o); [congruence|reflexivity].
+Qed.
+
+Lemma validb_valid I : validb I = true -> valid I.
+Proof.
+  unfold validb. rewrite forallb_forall. intros H j p o Hg. unfold get_op in Hg.
+  destruct (nth_error I j) as [job|] eqn:E; [|discriminate].
+  specialize (H job (nth_error_In _ _ E)). rewrite forallb_forall in H.
+  specialize (H o (nth_error_In _ _ Hg)). unfold valid_opb in H. apply andb_true_iff in H.
+  destruct H as [H _]. apply Z.leb_le; exact H.
+Qed.
+
 (** ** Numbering *)
 
 Lemma set_attrs_job_spec j p c job :
